@@ -4,7 +4,7 @@ import math
 import numpy as np
 from hypothesis import strategies as st
 
-from .. import problems as P
+from .. import problems as P, refmath as R
 from ..common import Viol, result, bootstrap
 
 PROPERTY = "C01"
@@ -221,6 +221,41 @@ def wild_newton_step(case, out):
         if np.max(np.abs(o.w)) > 1e3 * ref or not np.all(np.isfinite(o.w)):
             return True
     return saturated_iterate(case)
+
+
+def predicted_wild_step(case, w_from):
+    """Implementation-independent form of the root cause: at `w_from` (reference gradient g and reference Hessian
+    weights h of the loss) some pure Newton coordinate step |g_j| / sum_i h_i X_ij^2 -- or the intercept step
+    |sum_i r_i| / sum_i h_i -- exceeds 1e3 x (1 + max |w_from|), or the curvature is numerically zero while the gradient
+    is not.  A defect that merely overshoots from a well-conditioned point does not satisfy this."""
+    try:
+        loss = P.ref_loss(case)
+        X = np.array(case["X"], float)
+        y = np.array(case["y"], float)
+        w, b, fi = P.split(case, np.asarray(w_from, float))
+        with np.errstate(all="ignore"):
+            eta = X @ w + b
+            r = np.asarray(loss.grad(y, eta), float)
+            if isinstance(loss, R.Cox):
+                h = r + y[:, 1] / len(y)        # documented diagonal bound used by the solver
+            else:
+                h = np.asarray(loss.hess(y, eta), float)
+            if not (np.all(np.isfinite(r)) and np.all(np.isfinite(h))):
+                return True
+            g = X.T @ r
+            c = (h[:, None] * X ** 2).sum(0)
+            ref = 1e3 * (1. + (float(np.max(np.abs(w_from))) if np.size(w_from) else 0.))
+            cols = np.abs(X).sum(0) > 0
+            steps = np.where(c > 0, np.abs(g) / np.where(c > 0, c, 1.), np.where((np.abs(g) > 0) & cols, np.inf, 0.))
+            if np.any(steps > ref):
+                return True
+            if fi:
+                cb, gb = float(h.sum()), abs(float(r.sum()))
+                if (cb > 0 and gb / cb > ref) or (cb <= 0 and gb > 0):
+                    return True
+        return False
+    except Exception:  # noqa -- no reference model for this composition: the root cause cannot be confirmed
+        return False
 
 
 def saturated_iterate(case):
